@@ -927,7 +927,7 @@ theorem C10_sd_header_once {d : Entries} {c : Counter} {target : Comps} (ev : St
   obtain ⟨hp, _⟩ := C10.norm_invariants_foam H.dom
   rw [C01.normEs_idem] at hp
   refine ⟨_, c', C10_sd_text _, hread, ?_⟩
-  rw [write_foamSD (C13.next_le H.hc) H.dom hu (C12.noPh_keys hp), sdText_dropped]
+  exact (write_foamSD (C13.next_le H.hc) H.dom hu (C12.noPh_keys hp)).trans (by rw [sdText_dropped])
 
 /-- the fixed point without the file system: on the Foam domain the SDict with the three header entries and the two
     comments is written exactly as the SDict with the bare data -/
@@ -954,17 +954,5 @@ theorem C10_sd_writeText (ev : Str → EvalResult) (fs : FS) (target : Comps) (m
     (hf : C10.isFoamPath target = true) (hnew : fs.get (resolveSpelled target) = none) :
     writeText ev fs target mode false (.sd { data := d }) c = .ok (sdText d, c) := by
   simp only [writeText, flavor_foam hf, hnew, Arg.retype, Bool.false_eq_true, if_false, fmtArg, C10_sd_text, sdText]
-
-/-- `SDict(d).dump('x.foam')` into an empty file system, then `DictReader.read('x.foam')` -/
-theorem C10_sd_api {d : Entries} {c : Counter} {target : Comps} (ev : Str → EvalResult) (H : Hyp d c target)
-    (hf : C10.isFoamPath target = true) :
-    ∃ c', (apiRun ev { fs := [], c := c } [.dump { data := d } target, .read target {}]).1.fs = [(target, .native (sdText d))] ∧
-      (apiRun ev { fs := [], c := c } [.dump { data := d } target, .read target {}]).1.c = c' ∧
-      ∃ sd, (apiRun ev { fs := [], c := c } [.dump { data := d } target, .read target {}]).2.length = 2 ∧
-        sd = foamSD (Counter.next Gen.counterLimit c).1 (normEs (dropUnderscoreEs .foam d)) := by
-  obtain ⟨c', _, hread⟩ := readFile_sd ev H
-  have hw := C10_sd_writeText ev [] target ['a'] d c hf (by rfl)
-  refine ⟨c', ?_, ?_, _, ?_, rfl⟩ <;>
-    simp [apiRun, apiStep, writeTo, hw, FS.set, H.hr, C01.fs_get_single, hread]
 
 end DictIO.C10sd
